@@ -1,6 +1,6 @@
 (** C02 - operators group exactly by the documented precedence and associativity.
     Part 1 (generated facts, re-checked on every run): the built-in table dumped from the impl IS the documented table. *)
-From EE Require Import Chars OpTable Names Token Ast Parser ParserSteps GroupingSmall Printer Etoks PrattFull PrattParen ImplTable DocTable.
+From EE Require Import Chars OpTable Names Token Ast Parser ParserSteps GroupingSmall Printer Ptree Etoks PrattFull PrattParen RoundTrip ImplTable DocTable.
 Open Scope N_scope.
 
 (* every row of README.md's BinaryExpression table is registered with that precedence; every registered infix operator is a
@@ -84,9 +84,9 @@ Print Assumptions C02_builtins_wf.
    operators, and every well-formed tree [t] - names, literals, infix operators, `x not OP y`, prefix and postfix operators,
    conditionals, calls, lists and maps, of any size and shape within the parser's depth limit - the token sequence [etoks t]
    (the printer model's output, token by token: parentheses exactly where the documented rule demands them - a left operand
-   unless every operator on its right spine has r_bp above the parent's l_bp, a right operand unless every operator on its
-   left spine has l_bp above the parent's r_bp, a conditional as operand, an operator expression under a prefix or postfix
-   operator) is parsed back to exactly [t], every token consumed.
+   unless every operator on its right spine, followed up to the next parenthesis, has r_bp above the parent's l_bp, a right
+   operand unless every operator on its left spine has l_bp above the parent's r_bp, a conditional as operand, an operator
+   expression under a prefix or postfix operator) is parsed back to exactly [t], every token consumed.
    So the binding powers 2p / 2p+1 / 2p-1 of the documented precedence p and associativity decide EVERY grouping, prefix binds
    tighter than infix, postfix tighter than prefix, the conditional is loosest and right-nested, `x not OP y` is not(x OP y),
    and parentheses override - for all trees, not for the two- or three-operator samples above. *)
@@ -105,7 +105,7 @@ Example C02_round_trip_example :
                      (AMap [(ARef [107], AUnary s_not (ABinary n_in a a))]) in
   let t2 := ABinary n_sub (ABinary n_add one (ABinary n_mul one one)) one in
   tbl_ok builtin_table /\ wf builtin_table t1 = true /\ wf builtin_table t2 = true /\
-  need builtin_table t1 = 6 /\ need builtin_table t2 = 3 /\
+  need builtin_table t1 = 5 /\ need builtin_table t2 = 3 /\
   length (etoks builtin_table t1) = 27%nat /\
   parse_tokens builtin_table TmEof (etoks builtin_table t1) = Ok t1.
 Proof. vm_compute. repeat split. Qed.
